@@ -146,7 +146,11 @@ directive @transform(op: String!) repeatable on FIELD
                 TypeSystemDefinition::Type(t) => {
                     let node = t.node;
                     let type_name: Arc<str> = Arc::from(node.name.node.to_string());
-                    assert!(!get_builtin_scalars().contains(type_name.as_ref()));
+                    if get_builtin_scalars().contains(type_name.as_ref()) {
+                        return Err(InvalidSchemaError::BuiltinScalarRedefinition(
+                            type_name.to_string(),
+                        ));
+                    }
 
                     if node.extend {
                         unimplemented!("Trustfall does not support extending schemas");
